@@ -690,23 +690,54 @@ def oracle_multi(ctx):
                 try:
                     with np.errstate(all='ignore'):
                         res = X.angvec(unit=u)
-                    ths, axs = res
+                    # one (angle, axis) pair per value (since /repo 3803e60; before, the N x 3 x 3 stack went to tr2angvec: ValueError)
+                    if not (isinstance(res, (list, tuple)) and len(res) == n and all(isinstance(p_, (list, tuple)) and len(p_) == 2 for p_ in res)):
+                        ctx.fail(f'oracle:multi:angvec:{site}:layout', f"{site}.angvec on a {n}-element object does not return {n} (angle, axis) pairs: {res!r}"[:400], rep)
+                        continue
+                    lim = 180.0 if u == 'deg' else PI
                     for i in range(n):
-                        t, ax = float(np.asarray(ths, float)[i]), np.asarray(axs, float)[i]
+                        t, ax = float(res[i][0]), (None if res[i][1] is None else np.asarray(res[i][1], float))
                         tb, axb = base.tr2angvec(Rel[i], unit=u)
+                        if ax is None or not np.isfinite(t) or not np.all(np.isfinite(ax)):
+                            ctx.fail(f'oracle:multi:angvec:{site}:element', f"{site}.angvec on a {n}-element object: element {i} = ({t}, {ax})", dict(rep, element=i))
+                            continue
                         err = float(np.max(np.abs(np.array(base.angvec2r(t, ax, unit=u), float) - Rel[i])))
-                        if not (abs(t - tb) <= 1e-9 * 180 and np.allclose(ax, axb, atol=1e-9)) or not err <= 1e-6:
-                            ctx.fail(f'oracle:multi:angvec:{site}:element', f"{site}.angvec on a {n}-element object: element {i} = ({t}, {ax}), base gives "
+                        nax = float(np.linalg.norm(ax))
+                        if (not (abs(t - tb) <= 1e-9 * 180 and np.allclose(ax, axb, atol=1e-9)) or not err <= 1e-6
+                                or not (0 <= t <= lim * (1 + 2 * EPS)) or not (abs(nax - 1) <= 1e-9 or (nax == 0 and t == 0))):
+                            ctx.fail(f'oracle:multi:angvec:{site}:element', f"{site}.angvec(unit={u!r}) on a {n}-element object: element {i} = ({t}, {ax}), base gives "
                                      f"({tb}, {axb}); rebuild error {err:g}", dict(rep, element=i))
-                except ValueError as ex:
-                    if 'not SO(3)' in str(ex):
-                        ctx.fail('oracle:multi:angvec:sequence-raises:ValueError',
-                                 f"{site}.angvec() on a {n}-element object raises ValueError({ex}): the accessor hands the N x 3 x 3 stack self.R to the "
-                                 f"single-value kernel base.tr2angvec", rep)
-                    else:
-                        ctx.fail(f'oracle:multi:angvec:{site}:raises:ValueError', f"{site}.angvec on a {n}-element object raises {ex}", rep)
                 except Exception as ex:
                     ctx.fail(f'oracle:multi:angvec:{site}:raises:{type(ex).__name__}', f"{site}.angvec on a {n}-element object raises {type(ex).__name__}: {ex}", rep)
+
+
+def oracle_multi_planar(ctx):
+    """SO2 / SE2 holding 2..4 values: theta(unit) and xyt() element by element against the single-valued call, each rebuilt"""
+    rng = ctx.rng
+    for it in range(ctx.n(60, 1500)):
+        n = int(rng.integers(2, 5))
+        ths = [float(rng.choice([0, PI / 2, -PI / 2, PI, rng.uniform(-PI, PI)])) + float(rng.choice([0, 1, -1])) * log_uniform(rng, 1e-12, 1e-1) for _ in range(n)]
+        Ts = [np.array(base.xyt2tr([rng.normal(), rng.normal(), t]), float) for t in ths]
+        rep = {'site': 'SE2/SO2[multi]', 'n': n, 'T_hex': [hexl(T) for T in Ts]}
+        ctx.case(('multi-planar', it))
+        ctx.count('oracle:multi:planar')
+        try:
+            X, Y = SE2(Ts, check=False), SO2([T[:2, :2] for T in Ts], check=False)
+            for u in ('rad', 'deg'):
+                for nm, obj in (('SE2', X), ('SO2', Y)):
+                    got = np.asarray(obj.theta(unit=u), float)
+                    ref = np.array([type(obj)(x.A, check=False).theta(unit=u) for x in obj], float)
+                    if got.shape != (n,) or not np.allclose(got, ref, rtol=0, atol=1e-12 * 180):
+                        ctx.fail(f'oracle:multi:planar:{nm}.theta', f"{nm}.theta(unit={u!r}) on {n} values gives {got}, element-wise {ref}", rep)
+                    for i in range(n if got.shape == (n,) else 0):
+                        if not np.max(np.abs(np.array(base.rot2(got[i], unit=u), float) - Ts[i][:2, :2])) <= 1e-6:
+                            ctx.fail(f'oracle:multi:planar:{nm}.theta:rebuild', f"rot2({nm}.theta()[{i}]) differs from the rotation block", dict(rep, element=i))
+            xs = X.xyt()
+            for i in range(n):
+                if len(xs) != n or not np.max(np.abs(np.array(base.xyt2tr(np.asarray(xs[i], float)), float) - Ts[i])) <= 1e-6 * max(1, np.max(np.abs(Ts[i]))):
+                    ctx.fail('oracle:multi:planar:SE2.xyt:rebuild', f"xyt2tr(SE2.xyt()[{i}]) differs from element {i}", dict(rep, element=i))
+        except Exception as ex:
+            ctx.fail(f'oracle:multi:planar:raises:{type(ex).__name__}', f"planar accessor on a {n}-valued object raises {type(ex).__name__}: {ex}", rep)
 
 
 def run(ctx):
@@ -757,3 +788,4 @@ def run(ctx):
         oracle_angvec(ctx)
         oracle_planar(ctx)
         oracle_multi(ctx)
+        oracle_multi_planar(ctx)
